@@ -38,7 +38,7 @@ let ext_of (spec : string) : ext =
   | "ian" -> mk XIssuerAltName
   | "sda" -> mk XSubjDirAttrs
   | "nc" | "pc" | "crldp" | "iap" | "fcrl" -> mk XUnchecked
-  | "ns" | "aia" | "nscom" | "sct" | "crlreason" | "invdate" | "certissuer" | "unk" -> mk XUnknown
+  | "ns" | "aia" | "nscom" | "sct" | "crlreason" | "invdate" | "certissuer" | "unk" | "bcx" | "kux" | "cepre" -> mk XUnknown
   | "bad" -> mk ~ok:false XUnknown
   | _ -> failwith "ext kind"
 
